@@ -38,6 +38,8 @@ pub enum Action {
     TokenlessRepay { u: usize, b: usize },
     Purge { u: usize, b: usize },
     ForceTokenlessComplete { b: usize },
+    /// group admin re-tags a bank (configure_bank asset_tag)
+    Retag { b: usize, tag: u8 },
     /// transfer_to_new_account (same authority keeps control; new account key is derived)
     Transfer { u: usize },
     CloseAccount { u: usize },
@@ -172,6 +174,7 @@ pub fn user_ix(w: &World, s: &Store, a: &Action, signer: Pubkey) -> Option<Ix> {
         }
         Action::Purge { u, b } => ix::purge_deleverage_balance(g, acct(*u), signer, w.banks[*b].key),
         Action::ForceTokenlessComplete { b } => ix::force_tokenless_repay_complete(g, signer, w.banks[*b].key),
+        Action::Retag { b, tag } => ix::configure_bank(g, signer, w.banks[*b].key, marginfi_type_crate::types::BankConfigOpt { asset_tag: Some(*tag), ..Default::default() }),
         Action::Transfer { u } => {
             let old = acct(*u);
             ix::transfer_to_new_account(g, old, next_account_key(&old), signer, w.payer, w.users[*u].authority, w.fee_wallet)
@@ -203,7 +206,7 @@ pub fn default_signer(w: &World, a: &Action) -> Option<Pubkey> {
         Action::Accrue { .. } | Action::CollectFees { .. } => w.payer,
         Action::TokenlessRepay { .. } | Action::Purge { .. } | Action::ForceTokenlessComplete { .. } => w.roles.risk,
         Action::Transfer { u } | Action::CloseAccount { u } | Action::CloseOriginal { u } => w.users[*u].authority,
-        Action::CloseBank { .. } | Action::Freeze { .. } => w.roles.admin,
+        Action::CloseBank { .. } | Action::Freeze { .. } | Action::Retag { .. } => w.roles.admin,
         _ => return None,
     })
 }
